@@ -42,6 +42,27 @@ theorem sessRunG_stops {saveOk : Report → Bool} {strat : Strategy} {clock : Na
     sessRunG saveOk strat clock s (e :: es) = (s, some err) := by
   simp only [sessRunG, h]
 
+/-- a step stopped by a save: the report the writer had just produced is refused by `saveOk` -/
+theorem sessStepG_save_error {saveOk : Report → Bool} {strat : Strategy} {clock : Nat → Nat} {s : Sess} {e : Event}
+    (h : sessStepG saveOk strat clock s e = .error .save) :
+    ∃ w', Writer.apply s.w e = .ok w' ∧ saveOk w'.report = false := by
+  cases hw : Writer.apply s.w e with
+  | error err => simp [sessStepG, hw] at h
+  | ok w' =>
+    refine ⟨w', rfl, ?_⟩
+    cases hf : fileSessionHandle strat clock { s with w := w', handled := s.handled + 1 } e with
+    | error err => simp [sessStepG, hw, fileSessionHandleG, hf] at h
+    | ok s2 =>
+      cases hok : saveOk w'.report with
+      | false => rfl
+      | true => simp [sessStepG, hw, fileSessionHandleG, hf, hok] at h
+
+theorem allOk_false {bs : List (Report → Bool)} {r : Report} (h : allOk bs r = false) : ∃ b ∈ bs, b r = false := by
+  unfold allOk at h
+  have := List.all_eq_false.mp h
+  obtain ⟨b, hb, hbr⟩ := this
+  exact ⟨b, hb, by simpa using hbr⟩
+
 theorem truthy_some {s : String} (h : s ≠ "") : truthy (some s) = some s := by
   have : s.isEmpty = false := by
     cases hs : s.isEmpty
